@@ -21,8 +21,9 @@ shows it, up to the invented action uuid (and the invented uuid of a templating 
 Core Lean only (compiled into the driver).  Quirks kept:
 * export drops `all_urns`, `topic`, a field reference's `key` and `type`, `all_groups` and the
   group attributes query/status/system/count; every group NAME is written (`mainarg_groups`)
-  but only the FIRST group's uuid (`obj_id`), and the compile side reads only
-  `mainarg_groups[0]`;
+  but only the FIRST group's uuid (`obj_id`); the compile side (`_get_row_groups`) builds one
+  group per listed name: the first with `obj_id`, every further NON-BLANK name without uuid
+  (a blank further entry is skipped; an empty list is an IndexError as before);
 * empty attachments are dropped on both sides, empty quick replies only on the compile side;
 * exactly one attachment `image:`/`audio:`/`video:` goes to the column of that name, cut at 6
   characters (`attachment[6:]`), and comes back `strip()`ped and only if non-empty;
@@ -36,7 +37,8 @@ Core Lean only (compiled into the driver).  Quirks kept:
 * group and sub-flow uuids travel through the container's dictionary (`_get_row_node` records
   `(name, obj_id)`; `record_global_uuids` records what the reference itself carries;
   `assign_global_uuids` overwrites the reference with the dictionary's uuid, inventing one where
-  none was recorded): `ofFields` reports the uuid recorded for the name (`none` = invented).
+  none was recorded): `ofFields` reports the uuid recorded for the name (`none` = invented) —
+  `resolveGroups`: a further group named like the first one takes the first one's uuid.
 
 Numbers (`transfer_airtime.amounts`): an `int` is printed by `str` and read by `int()`
 (`Row.printInt` / `Row.pyInt`, ASCII digits; CPython's 4300-digit limit of `str(int)` is not
@@ -444,6 +446,26 @@ def toFields : Act → Except Err RowFields
 def groupOf (name objId : Str) : GroupRef :=
   { name := name, uuid := if objId = [] then none else some objId, attrs := false }
 
+/-- `UUIDDict._record_uuid` over the groups of the action, in order (`record_global_uuids`): the
+dictionary keeps, per name, the first non-empty uuid recorded under it; `none` = the entry has no
+uuid (one is invented later).  The ValueError of two different uuids under one name cannot arise
+from a row: only the first group carries one. -/
+def recordedUuid : List GroupRef → Str → Option Str
+  | [], _ => none
+  | g :: rest, name =>
+    if g.name = name ∧ g.uuid ≠ none ∧ g.uuid ≠ some [] then g.uuid else recordedUuid rest name
+
+/-- `assign_global_uuids`: every reference takes the dictionary's uuid for its name -/
+def resolveGroups (gs : List GroupRef) : List GroupRef :=
+  gs.map fun g => { g with uuid := recordedUuid gs g.name }
+
+/-- `_get_row_groups(row)`: `names[0]` with the row's `obj_id` (IndexError on an empty list), then
+`_get_or_create_group(name)` for every further name `if name` -/
+def rowGroups (names : List Str) (objId : Str) : Except Err (List GroupRef) :=
+  match names with
+  | [] => .error .noGroup
+  | n :: rest => .ok (groupOf n objId :: (rest.filter (· ≠ [])).map fun m => groupOf m [])
+
 /-- the branch of `_get_row_action` a row type takes (the `if … elif` chain, in source order) -/
 inductive RowKind where
   | sendMessage | saveValue | addToGroup | addContactUrn | removeFromGroup | saveFlowResult
@@ -496,15 +518,15 @@ def rowAction (r : RowFields) : Except Err (Option Act) :=
       if r.mainargValue.length > maxFieldValue then .error .valueTooLong
       else .ok (some (.setContactField r.saveName key [] r.mainargValue))
   | .addToGroup =>
-    match r.mainargGroups with
-    | [] => .error .noGroup
-    | g :: _ => .ok (some (.addGroups [groupOf g r.objId]))
+    match rowGroups r.mainargGroups r.objId with
+    | .error e => .error e
+    | .ok gs => .ok (some (.addGroups (resolveGroups gs)))
   | .addContactUrn =>
     .ok (some (.addContactUrn r.mainargValue (if r.urnScheme ≠ [] then r.urnScheme else defaultScheme)))
   | .removeFromGroup =>
-    match r.mainargGroups with
-    | [] => .error .noGroup
-    | g :: _ => .ok (some (.removeGroups [groupOf g r.objId] false))
+    match rowGroups r.mainargGroups r.objId with
+    | .error e => .error e
+    | .ok gs => .ok (some (.removeGroups (resolveGroups gs) false))
   | .saveFlowResult =>
     if r.mainargValue.length > maxResultValue then .error .valueTooLong
     else .ok (some (.setRunResult r.saveName r.mainargValue r.resultCategory))
@@ -589,13 +611,48 @@ instance (a : Amount) : Decidable a.WellFormed := by
 instance {V : Type} (d : List (Str × V)) : Decidable (KeysNodup d) := by
   unfold KeysNodup; exact inferInstance
 
-/-- exactly one group, with a proper (absent or non-empty) uuid and no attributes -/
-def OneGroup : List GroupRef → Prop
-  | [g] => g.Expressible
-  | _ => False
+/-- a group after the first, up to its uuid: a name (a blank entry of the list cell is skipped)
+and no attributes -/
+def GroupRef.TailOk (g : GroupRef) : Prop := g.name ≠ [] ∧ g.attrs = false
 
-instance (gs : List GroupRef) : Decidable (OneGroup gs) := by
-  unfold OneGroup; split <;> exact inferInstance
+instance (g : GroupRef) : Decidable g.TailOk := by unfold GroupRef.TailOk; exact inferInstance
+
+/-- the uuid a group after the first comes back with: `obj_id` is ONE cell and carries the first
+group's uuid only; the others are referenced by name and resolved through the container's
+dictionary — the first group's uuid under the first group's name, none (invented) otherwise -/
+def tailUuid (g0 g : GroupRef) : Option Str := if g.name = g0.name then g0.uuid else none
+
+/-- at least one group; the first with a proper (absent or non-empty) uuid and no attributes; the
+others named, without attributes — their uuids are NOT constrained: the round trip holds up to them -/
+def GroupsOkModTailUuids : List GroupRef → Prop
+  | [] => False
+  | g0 :: rest => g0.Expressible ∧ ∀ g ∈ rest, g.TailOk
+
+/-- the uuids of the groups after the first are the ones the sheet gives back -/
+def TailUuidsKept : List GroupRef → Prop
+  | [] => True
+  | g0 :: rest => ∀ g ∈ rest, g.uuid = tailUuid g0 g
+
+/-- the group lists that come back intact -/
+def GroupsOk (gs : List GroupRef) : Prop := GroupsOkModTailUuids gs ∧ TailUuidsKept gs
+
+instance (gs : List GroupRef) : Decidable (GroupsOkModTailUuids gs) := by
+  unfold GroupsOkModTailUuids; split <;> exact inferInstance
+
+instance (gs : List GroupRef) : Decidable (TailUuidsKept gs) := by
+  unfold TailUuidsKept; split <;> exact inferInstance
+
+instance (gs : List GroupRef) : Decidable (GroupsOk gs) := by unfold GroupsOk; exact inferInstance
+
+/-- forget what `obj_id` cannot carry: the uuids of the groups after the first -/
+def forgetTail : List GroupRef → List GroupRef
+  | [] => []
+  | g0 :: rest => g0 :: rest.map fun g => { g with uuid := none }
+
+def Act.forgetTailUuids : Act → Act
+  | .addGroups gs => .addGroups (forgetTail gs)
+  | .removeGroups gs all => .removeGroups (forgetTail gs) all
+  | a => a
 
 def TemplOk : Option Templating → Prop
   | some t => t.name ≠ []
@@ -617,8 +674,8 @@ def Expressible : Act → Prop
     fieldKey name = .ok key ∧ fieldType = [] ∧ value.length ≤ maxFieldValue
   | .setContactProp _ value => value ≠ []
   | .setContactChannel _ _ => False
-  | .addGroups groups => OneGroup groups
-  | .removeGroups groups allGroups => OneGroup groups ∧ allGroups = false
+  | .addGroups groups => GroupsOk groups
+  | .removeGroups groups allGroups => GroupsOk groups ∧ allGroups = false
   | .setRunResult _ value _ => value.length ≤ maxResultValue
   | .enterFlow name uuid => name ≠ [] ∧ uuid ≠ some []
   | .callWebhook resultName url method _ headers =>
@@ -631,5 +688,24 @@ def Expressible : Act → Prop
 
 instance : DecidablePred Expressible := fun a => by
   cases a <;> (unfold Expressible; exact inferInstance)
+
+/-- `Expressible` up to the uuids of the groups after the first of a group action (everything
+else as in `Expressible`) -/
+def ExpressibleModTailUuids : Act → Prop
+  | .addGroups groups => GroupsOkModTailUuids groups
+  | .removeGroups groups allGroups => GroupsOkModTailUuids groups ∧ allGroups = false
+  | a => Expressible a
+
+instance : DecidablePred ExpressibleModTailUuids := fun a => by
+  cases a <;> (unfold ExpressibleModTailUuids; exact inferInstance)
+
+/-- the part of `Expressible` that is about those uuids -/
+def Act.TailUuidsKept : Act → Prop
+  | .addGroups groups => ActionCodec.TailUuidsKept groups
+  | .removeGroups groups _ => ActionCodec.TailUuidsKept groups
+  | _ => True
+
+instance : DecidablePred Act.TailUuidsKept := fun a => by
+  cases a <;> (unfold Act.TailUuidsKept; exact inferInstance)
 
 end Rpft.ActionCodec
